@@ -297,6 +297,23 @@ def g_rules(p: Project, rep: Report):
         user_ = [i for i, x in enumerate(seq) if x == "USERCONFIGPATH"]
         ok = bool(user_) and bool(fi_like) and max(fi_like) < min(user_) and set(seq) <= {"CONFIGPATH", "LIBCFG", "USERCONFIGPATH"}
         rep.check("G-R1", "USERCFG.read:fi-db-then-user-file", ok, f"USERCFG is loaded from {seq}: the user's file must be read after (and so override) the bundled FI database" if not ok else "", gloc(p, first_node))
+    # LIBCFG is `what the lower-ranking sources supply` (mk_server_cfg saves only what differs from it, and clears what
+    # equals it): it is loaded from the bundled FI database alone
+    lib_seq, lib_node = [], None
+    for st in m.tree.body:
+        if isinstance(st, (ast.FunctionDef, ast.AsyncFunctionDef, ast.ClassDef)):
+            continue
+        for n in ast.walk(st):
+            if isinstance(n, ast.Call) and isinstance(n.func, ast.Attribute) and n.func.attr in ("read", "read_dict", "read_file", "read_string") and text(n.func.value) == "LIBCFG" and n.args:
+                lib_node = lib_node or n
+                a0 = n.args[0]
+                lib_seq += [text(e) for e in a0.elts] if isinstance(a0, (ast.List, ast.Tuple)) else [text(a0)]
+    if lib_seq:
+        extra = [x for x in lib_seq if x != "CONFIGPATH"]
+        if all(x in ("CONFIGPATH", "USERCONFIGPATH", "USERCFG") for x in lib_seq):
+            rep.check("G-R1", "LIBCFG.read:fi-db-only", not extra, f"LIBCFG is loaded from {lib_seq}: with the user's own file in it, mk_server_cfg() takes the settings saved earlier for what the FI database supplies - the next --write for that server finds them `equal to the lower sources` and removes them from the user's section (the second `ofxget ... --write` empties what the first one saved)" if extra else "", gloc(p, lib_node))
+        else:
+            rep.note(f"G-R1 undecided: LIBCFG is loaded from {lib_seq}")
     mainf = _fn(p, "main")
     ok = any(isinstance(c, ast.Call) and text(c.func) == "merge_config" and len(c.args) == 2 and text(c.args[1]) == "USERCFG" for c in own_nodes(mainf))
     rep.check("G-R1", "main:merges-USERCFG", ok, "" if ok else "main() does not merge the layered USERCFG", gloc(p, mainf))
@@ -1538,3 +1555,35 @@ def j_r11_unlisted_types_masked(p: Project, rep: Report):
             continue
         rep.check("J-R11", "_merge_acctinfo:mask-ranks-after-the-listed-accounts", not shadowing, f"{shadowing} precedes the parsed accounts in the inserted layer: its empty lists shadow every account the response lists, so --all requests nothing" if shadowing else "", gloc(p, c))
         rep.check("J-R11", "_merge_acctinfo:unlisted-types-masked", not missing, f"the inserted layer {text(layer)[:70]} defines {missing} only when the response has an ACTIVE account of that type: `ofxget stmt --all` still requests an account of such a type saved in the config file although the server lists it as PEND / AVAIL or not at all" if missing else "", gloc(p, c))
+
+
+def g_r13_nickname_looked_up_as_given(p: Project, rep: Report):
+    """the positional argument is a nickname first"""
+    rep.rule("G-R13", "the server name given on the command line is looked up in the configuration AS GIVEN: in merge_config the user's section is read with read_config(<config>, <CLI layer>['server']) before anything re-interprets that name - the `sloppy` reading of the positional as a URL is a last resort taken only after no URL was found in any source.  Rewriting the CLI layer's 'server' (to None, to a URL) ahead of the lookup makes a nickname that merely parses as having a scheme ('citi:joint', 'chase:biz') skip its own section and the FI database, so every option falls through to the defaults and --write is refused")
+    mc0 = _fn(p, "merge_config")
+    mc = flat(p, OFXGET, mc0)
+    ex = Expander(mc)
+    # the CLI layer: the local bound to extractns(<namespace>)
+    cli = [st.targets[0].id for st in own_statements(mc) if isinstance(st, ast.Assign) and len(st.targets) == 1 and isinstance(st.targets[0], ast.Name) and isinstance(st.value, ast.Call) and text(st.value.func) == "extractns"]
+    looks = [c for c in ast.walk(mc) if isinstance(c, ast.Call) and text(c.func) == "read_config" and len(c.args) == 2]
+    if not cli or not looks:
+        rep.note("G-R13 undecided: merge_config: CLI layer / read_config lookup not recognised")
+        return
+    cl = cli[0]
+    first = min(looks, key=lambda c: c.lineno)
+    key = ex.t(first.args[1]).replace('"', "'")
+    import re as _re13
+    ok = bool(_re13.fullmatch(r"(%s|extractns\(\w+\))(\['server'\]|\.get\('server'(, None)?\))" % _re13.escape(cl), key))
+    rep.check("G-R13", "merge_config:section-read-for-the-name-given", ok, f"the user's section is read for {key}, not for the server name as given on the command line" if not ok else "", gloc(p, first))
+    rewritten = None
+    for st in ast.walk(mc):
+        if getattr(st, "lineno", 10**9) >= first.lineno:
+            continue
+        if isinstance(st, (ast.Assign, ast.AugAssign, ast.Delete)):
+            tgs = st.targets if isinstance(st, (ast.Assign, ast.Delete)) else [st.target]
+            for t in tgs:
+                if isinstance(t, ast.Subscript) and text(t.value) == cl and isinstance(t.slice, ast.Constant) and t.slice.value == "server":
+                    rewritten = rewritten or st
+        if isinstance(st, ast.Call) and isinstance(st.func, ast.Attribute) and text(st.func.value) == cl and st.func.attr in ("pop", "update", "setdefault", "clear") and (not st.args or (isinstance(st.args[0], ast.Constant) and st.args[0].value == "server") or st.func.attr in ("update", "clear")):
+            rewritten = rewritten or st
+    rep.check("G-R13", "merge_config:name-not-reinterpreted-before-the-lookup", rewritten is None, f"`{text(rewritten)[:60]}` changes the command-line layer's 'server' before the configuration is read: a nickname that parses as a URL with a scheme (any name with a colon) is never looked up - its saved url, version, org, fid, user and accounts are ignored and the nickname itself is used as the URL" if rewritten is not None else "", gloc(p, rewritten if rewritten is not None else first))
